@@ -50,6 +50,7 @@ func Mix(seed uint64, name string, run uint64) uint64 {
 }
 
 func (t *Tape) next() uint32 {
+	Tick()
 	var v uint32
 	if t.fixed {
 		if t.pos < len(t.replay) {
